@@ -4,6 +4,7 @@ R11.1 spans index the user's text: span-producing parsers are handed the caller'
 R11.2 flag plumbing: header key <-> LexFlags field <-> default <-> RegexBuilder setter <-> builder setter agree by name
 R11.4 no integer `as` cast in the library crates narrows (or changes signedness): numeric settings (size_limit, dfa_size_limit,
       nest_limit) travel header(u64) <-> field(usize/u32); a lossy cast puts a value in force that was not the one given
+R11.9 pieces cut by Regex::split on a one-character separator pass a non-empty filter (names are separated by one OR MORE blanks)
 R11.8 every escape form the regex engine interprets (table from its syntax documentation) is matched by RE_LEX_ESC_LITERAL, the
       lex parser's own list of escapes it must pass through unchanged
 R11.7 both arms of parse_start_states (with / without a `<state>` prefix) return regex text that went through `unescape`
@@ -523,8 +524,46 @@ def r118(facts, res):
         res.ok(R, 'engine-escapes', '', 'RE_LEX_ESC_LITERAL = %s matches all %d escape forms the regex engine interprets' % (lit, len(ENGINE_ESCAPES)))
 
 
+def r119(facts, res):
+    """Items separated by "one or more blanks" (start-state names of a %s / %x declaration): when the text is cut with
+    Regex::split on a separator regex that matches exactly ONE character, two separators in a row yield an empty piece - the
+    pieces must pass a non-empty filter before they are treated as names, or the separator regex must be repeatable."""
+    R = 'R11.9'
+    import c15
+    import progress
+    pr = progress.Progress(facts, ['lrlex'])
+    n = 0
+    for b in facts.lib_bodies(['lrlex']):
+        if b.from_expansion or not b.path.startswith('lrlex::parser'):
+            continue
+        for bb, t in b.calls_named('split'):
+            c = callee_of(t)
+            if not c or 'regex' not in c['path'].lower():
+                continue
+            n += 1
+            key = 'split:%s' % strip_generics(b.path)
+            # the separator regex: the regex static read closest before the call
+            stat = [x['rv']['use']['const']['static'] for bi in range(len(b.blocks)) for x in b.blocks[bi]['stmts']
+                    if x['k'] == 'assign' and 'use' in x['rv'] and isinstance(x['rv']['use'], dict) and x['rv']['use'].get('const', {}).get('static')
+                    and (b.dominates(bi, bb)) and pr.regex_of_static(x['rv']['use']['const']['static'])]
+            lit = pr.regex_of_static(stat[-1]) if stat else None
+            if lit is None:
+                res.lost(R, 'cannot read the separator regex of a Regex::split in %s' % b.path)
+                continue
+            import re as _re
+            repeatable = lit.rstrip().endswith(('+', '*')) or bool(_re.search(r'\{\d+,\d*\}$', lit.rstrip()))
+            holds, adapters, consumers = c15.flow(b, t['dest']['l'])
+            if repeatable or 'filter' in adapters or 'filter_map' in adapters:
+                res.ok(R, key, loc_of(b, bb), 'pieces cut by `%s` %s' % (lit, 'cannot be empty between two separators' if repeatable else 'pass a filter before use'))
+            else:
+                res.bad(R, key, loc_of(b, bb), 'the text is cut with Regex::split on `%s`, which matches one character: two separators in a row produce an empty piece that is then '
+                        'treated as a name (`%%s a  b` is rejected as "invalid start state name" although names are separated by one OR MORE blanks)' % lit, {'function': b.path})
+    res.floor(R, 'Regex::split calls in the lex parser', n, 1)
+
+
 def run(facts, res):
     r114(facts, res)
+    r119(facts, res)
     r118(facts, res)
     r117(facts, res)
     r116(facts, res)
